@@ -81,8 +81,20 @@ mod hostile2 {
     pub struct Sync;
     pub struct Send;
     pub struct AsRef;
+    pub struct Borrow;
+    // a local `core` (a "domain core" layer): relative `core::..` paths in generated code would land here
+    pub mod core { pub mod marker {} pub mod future {} pub mod convert {} pub mod borrow {} }
     pub trait Dep { fn dep(&self) -> u32; }
     impl Dep for ::entrait::Impl<App> { fn dep(&self) -> u32 { 10 } }
+
+    #[::entrait::entrait(BorImpl, delegate_by = Borrow)]
+    pub trait BorTr { fn bo(&self, a: u32) -> u32; }
+    pub struct BorBlock;
+    #[::entrait::entrait(ref)]
+    impl BorImpl for BorBlock { fn bo(deps: &impl Dep, a: u32) -> u32 { deps.dep() * a } }
+    impl ::core::borrow::Borrow<dyn BorImpl<App>> for App {
+        fn borrow(&self) -> &(dyn BorImpl<App> + 'static) { &BorBlock }
+    }
 
     #[::entrait::entrait(DynImpl, delegate_by = ref)]
     #[::async_trait::async_trait]
@@ -97,7 +109,7 @@ mod hostile2 {
     }
     pub fn run() -> u32 {
         let app = ::entrait::Impl::new(App(::std::boxed::Box::new(Block)));
-        super::block_on(DynTr::dy(&app, 5))
+        super::block_on(DynTr::dy(&app, 5)) + 1000 * BorTr::bo(&app, 3)
     }
 }
 
@@ -116,6 +128,6 @@ fn main() {
     let want = vec![11, 20, 7, 14, 10, 20, 28, 107];
     if got != want { println!("C19-PROBE-FAIL got {got:?} want {want:?}"); std::process::exit(1); }
     let got2 = hostile2::run();
-    if got2 != 15 { println!("C19-PROBE-FAIL hostile2 got {got2} want 15"); std::process::exit(1); }
-    println!("C19-PROBE cases=9 failed=0");
+    if got2 != 30015 { println!("C19-PROBE-FAIL hostile2 got {got2} want 30015"); std::process::exit(1); }
+    println!("C19-PROBE cases=10 failed=0");
 }
